@@ -14,13 +14,14 @@ func init() {
 		ID:    "C08",
 		Title: "the policy statement applied is the one scoped to the artifact's repository",
 		Run:   runC08,
-		Explain: "(a) OCI selection: the exact candidate is assigned only under equality-membership (internal/slices.Contains, generic ==) of the repository path in the statement's own registryScopes, the wildcard candidate only under membership of the constant '*'; " +
-			"the repository path is reference[:LastIndex(reference,\"@\")] with -1 fail-closed and the format validated; the loop has no early exit; " +
-			"(b) precedence decided by abstract interpretation over candidate nil-ness: exact, else wildcard, else a non-nil error; the three verifier call sites turn a selection error into ErrorNoApplicableTrustPolicy; " +
-			"(c) blob selection: exact name equality, global flag, not-found fail-closed; the global statement is used iff no name is given; " +
-			"(d) ownership: every statement handed out is the result of a clone; each clone shares no mutable storage with the document (every slice, map and pointer component, recursively through struct-valued fields, is freshly made or nil).",
+		Explain: "Statements are followed by role and dataflow: a value denotes element i of the document's TrustPolicies (its address, the element loaded, or the range variable's copy); what is known about it is the set of branch facts between the point where that element is taken and the point where it is remembered / cloned (facts of one iteration), composed through boolean module helpers, helpers answering with an enumeration constant, predicate closures (captured variables replaced by their only value) and slices.IndexFunc. " +
+			"(a) OCI selection: in the method or in the module helper it hands the document to, a statement (its clone, or a pointer to it that is cloned before it is returned) becomes the exact candidate only under equality-membership (slices.Contains, generic ==) of a value derived from the reference in that statement's own registryScopes, the wildcard candidate only under membership of the constant '*'; " +
+			"that value is reference[:LastIndex(reference,\"@\")] (LastIndexByte '@' alike), and every success exit of the method lies behind 'separator found' and 'format validated' for it; the loop has no early exit; " +
+			"(b) precedence decided by abstract interpretation over candidate nil-ness, through a scan helper that answers nil for 'none': exact, else wildcard, else a non-nil error; the three verifier call sites turn a selection error into ErrorNoApplicableTrustPolicy; " +
+			"(c) blob selection: every statement a success exit can hand out is an element of the receiver's statements that satisfied Name == requested name (resp. its own global flag) when it was cloned; no success with nil or after an exhausted search; the global statement is used iff no name is given; " +
+			"(d) ownership: every statement handed out is the result of a clone (also through helpers); each clone shares no mutable storage with the document (every slice, map and pointer component, recursively through struct-valued fields, is freshly made or nil; a value-receiver clone that overwrites the reference-typed fields of its own copy counts, delegation to another clone method is judged there).",
 		NotCov:  "the languages of the scope regular expressions; uniqueness of scopes is C09.",
-		Trusted: []string{"go/types, go/ssa", "strings.LastIndex", "Go slice/map aliasing semantics"},
+		Trusted: []string{"go/types, go/ssa", "strings.LastIndex / strings.LastIndexByte", "slices.IndexFunc returns the first index whose element satisfies the predicate, or -1", "Go slice/map aliasing semantics"},
 	})
 }
 
@@ -109,6 +110,14 @@ func (w *World) sharesNothing(fn *ssa.Function, v ssa.Value, t types.Type, ret *
 	case *types.Pointer:
 		al, ok := v.(*ssa.Alloc)
 		if !ok {
+			// delegation: the result of another clone method of the same statement type shares nothing if that
+			// method's result does — and that method is judged under its own clone/… obligation (this is also the
+			// shape of the pointer-receiver wrapper the compiler generates for a value-receiver clone).
+			if call, isCall := v.(*ssa.Call); isCall {
+				if g := staticCallee(call); g != nil && g != fn && isCloneMethod(g) && types.Identical(g.Signature.Results().At(0).Type(), t) {
+					return true, ""
+				}
+			}
 			return false, "pointer " + desc(v) + " is not a fresh allocation"
 		}
 		return w.allocFieldsFresh(fn, al, u.Elem(), ret, depth+1)
@@ -185,6 +194,16 @@ func (w *World) allocFieldsFresh(fn *ssa.Function, al *ssa.Alloc, t types.Type, 
 				}
 				if ok2, why := w.sharesNothing(fn, s.Val, ft, ret, depth+1); !ok2 {
 					return false, "field " + st.Field(i).Name() + ": " + why
+				}
+				// the fresh value must not be overwritten by the copy of the whole source value: the whole-value
+				// assignment comes first (same block: earlier; otherwise in a dominating block)
+				for _, wr := range *al.Referrers() {
+					if ws, ok := wr.(*ssa.Store); ok && ws.Addr == ssa.Value(al) {
+						before := ws.Block() == s.Block() && instrIndex(ws) < instrIndex(s) || ws.Block() != s.Block() && ws.Block().Dominates(s.Block())
+						if !before {
+							return false, "field " + st.Field(i).Name() + " can be overwritten by the copy of the whole value after it was given a fresh value"
+						}
+					}
 				}
 				storeBlocks = append(storeBlocks, s.Block())
 			}
@@ -319,13 +338,16 @@ func selectionFns(w *World) []*ssa.Function {
 	return out
 }
 
-// returnsOnlyClones: every success exit returns a clone result (or a phi of clone results and nil that is known non-nil).
+// c08ReturnsClones: every success exit returns a clone result. The value returned is followed through phis (nil edges
+// say "nothing selected"), and through module helpers that hand a statement on (every statement such a helper
+// returns must itself be a clone result): c08Resolver.resolve.
 func c08ReturnsClones(c *Ctx, fn *ssa.Function) {
 	w := c.W
 	fi := w.Info(fn)
 	ok := true
 	detail := ""
 	n := 0
+	R := newC08Resolver(w)
 	for _, b := range fn.Blocks {
 		r, isRet := blockTerm(b).(*ssa.Return)
 		if !isRet {
@@ -335,41 +357,75 @@ func c08ReturnsClones(c *Ctx, fn *ssa.Function) {
 			continue
 		}
 		n++
-		seenPhi := map[*ssa.Phi]bool{}
-		var check func(v ssa.Value, depth int) bool
-		check = func(v ssa.Value, depth int) bool {
-			if depth > 8 {
-				return false
+		for _, alt := range R.resolve(fn, r.Results[0], b, 0, map[*ssa.Phi]bool{}) {
+			if alt.Nil || alt.Cloned {
+				continue
 			}
-			switch x := v.(type) {
-			case *ssa.Call:
-				// a clone by role: a method (*T) -> *T of a statement type without parameters (checked by clone/… to share nothing)
-				g := staticCallee(x)
-				return g != nil && isCloneMethod(g)
-			case *ssa.Phi:
-				if seenPhi[x] {
-					return true // loop-carried value: its other edges are checked where first met
-				}
-				seenPhi[x] = true
-				for _, e := range x.Edges {
-					if isNilConst(e) || e == v {
-						continue
-					}
-					if !check(e, depth+1) {
-						return false
-					}
-				}
-				return true
-			}
-			return false
-		}
-		if !check(r.Results[0], 0) {
 			ok = false
 			detail = "exit " + w.InstrPos(r) + " returns " + desc(r.Results[0])
+			if alt.Other != "" {
+				detail += " (" + trunc(alt.Other, 200) + ")"
+			} else {
+				detail += " (a statement of " + alt.Doc + " itself)"
+			}
 		}
 	}
 	c.Evals++
-	c.Check(ok && n > 0, "returns-clone/"+fnName(fn), "ownership: every statement handed out by the selection function is the result of a clone (never a pointer into the document)", w.FnPos(fn), detail)
+	c.Check(ok && n > 0, "returns-clone/"+fnName(fn), "ownership: every statement handed out by the selection function is the result of a clone (never a pointer into the document), also when it is handed on by a module helper", w.FnPos(fn), detail)
+}
+
+// c08Scan: the loop over the document's statements and the function it lives in: the selection method itself or a
+// module function the method hands its receiver to (the search extracted into a helper). chain lists the calls from
+// the selection method down to that function.
+type c08Scan struct {
+	Fn    *ssa.Function
+	Loop  sliceLoop
+	Chain []*ssa.Call
+}
+
+func c08FindScan(w *World, fn *ssa.Function, doc *ssa.Parameter, chain []*ssa.Call, depth int) *c08Scan {
+	var found *c08Scan
+	for _, sl := range sliceLoops(fn) {
+		if desc(sl.X) == "param:"+doc.Name()+".TrustPolicies" {
+			found = &c08Scan{Fn: fn, Loop: sl, Chain: chain}
+		}
+	}
+	if found != nil || depth >= 3 {
+		return found
+	}
+	for _, ci := range allCalls(fn) {
+		call, ok := ci.(*ssa.Call)
+		if !ok {
+			continue
+		}
+		g := staticCallee(call)
+		if g == nil || g.Blocks == nil || !w.IsProductFn(g) || isCloneMethod(g) || len(call.Call.Args) != len(g.Params) {
+			continue
+		}
+		for i, a := range call.Call.Args {
+			if a == ssa.Value(doc) {
+				if s := c08FindScan(w, g, g.Params[i], append(append([]*ssa.Call(nil), chain...), call), depth+1); s != nil {
+					return s
+				}
+			}
+		}
+	}
+	return nil
+}
+
+// lift moves a label of the scanning function's frame into the frame of the selection method.
+func (s *c08Scan) lift(l string) string {
+	for i := len(s.Chain) - 1; i >= 0; i-- {
+		call := s.Chain[i]
+		g := staticCallee(call)
+		var names, descs []string
+		for k, p := range g.Params {
+			names = append(names, p.Name())
+			descs = append(descs, desc(call.Call.Args[k]))
+		}
+		l = substParams(l, names, descs)
+	}
+	return l
 }
 
 func c08OCI(c *Ctx) {
@@ -386,183 +442,350 @@ func c08OCI(c *Ctx) {
 	}
 	c.SeenFn(SEL.String())
 	c08ReturnsClones(c, SEL)
-	fi := w.Info(SEL)
 	wc, _ := w.constString("internal/trustpolicy", "Wildcard")
 	ref := "param:" + SEL.Params[1].Name()
-	// the loop over the document's statements
-	var loop *sliceLoop
-	for _, sl := range sliceLoops(SEL) {
-		sl := sl
-		if strings.HasSuffix(desc(sl.X), ".TrustPolicies") {
-			loop = &sl
-		}
-	}
-	if loop == nil {
+	forms := c08PathForms(ref)
+	c08Path(c, SEL, ref, forms)
+	// the loop over the document's statements: in the selection method or in a module helper that receives the document
+	scan := c08FindScan(w, SEL, SEL.Params[0], nil, 0)
+	if scan == nil {
 		c.Unk("oci/loop", "anchor: the loop over the document's statements", w.FnPos(SEL), "not found")
 		return
 	}
+	LF, loop := scan.Fn, &scan.Loop
+	c.SeenFn(LF.String())
 	// no early exit
 	lb := loopBlocks(loop.Header)
 	single := true
 	for bi := range lb {
-		for _, s := range SEL.Blocks[bi].Succs {
-			if !lb[s.Index] && SEL.Blocks[bi] != loop.Header {
+		for _, s := range LF.Blocks[bi].Succs {
+			if !lb[s.Index] && LF.Blocks[bi] != loop.Header {
 				single = false
 			}
 		}
 	}
 	c.Check(single, "oci/no-early-exit", "the statement loop has no early exit (the result does not depend on statement order; a wildcard never stops the search for an exact match)", w.InstrPos(blockTerm(loop.Header)), "the loop can be left from inside its body")
-	// candidates: clone calls in the loop and their guards
+	// Candidates: the loop-carried statement pointers. What is assigned to a candidate inside the loop — the clone of
+	// the current statement or a pointer to it (cloned later, see returns-clone) — is judged at the point of
+	// assignment with the facts of that iteration: the statement (STMT) must be an element of the document's list and
+	// the assignment must lie behind the true edge of slices.Contains(STMT.RegistryScopes, x). Whether the test is
+	// written inline, in a boolean helper (engine) or in a helper answering with an enumeration constant
+	// (c08EnumFacts) makes no difference: the fact is the same label in the loop's frame.
+	wantDoc := "param:" + SEL.Params[0].Name() + ".TrustPolicies"
+	R := newC08Resolver(w)
 	var exactPhi, wildPhi *ssa.Phi
 	nExact, nWild := 0, 0
 	okGuards := true
 	detail := ""
-	// the repository path: result 0 of the module function (string) -> (string, error) applied to the reference
-	var pathD string
-	var pathCall *ssa.Call
-	for _, ci := range allCalls(SEL) {
-		if call, ok := ci.(*ssa.Call); ok {
-			if g := staticCallee(call); g != nil && w.IsProductFn(g) && len(call.Call.Args) == 1 && desc(call.Call.Args[0]) == ref && g.Signature.Results().Len() == 2 && g.Signature.Results().At(0).Type().String() == "string" {
-				pathD, pathCall = res(call, 0), call
-			}
+	exactArg := ""
+	for _, p := range headerPhis(loop.Header) {
+		if !c08IsStmtPtr(p.Type()) {
+			continue
 		}
-	}
-	for bi := range lb {
-		for _, in := range SEL.Blocks[bi].Instrs {
-			call, ok := in.(*ssa.Call)
-			if !ok {
+		var alts []c08Alt
+		for i, e := range p.Edges {
+			pred := loop.Header.Preds[i]
+			if !lb[pred.Index] || e == ssa.Value(p) {
 				continue
 			}
-			g := staticCallee(call)
-			if g == nil || !isCloneMethod(g) {
-				continue
-			}
-			stmt := desc(call.Call.Args[0])
-			labels, _ := fi.mustPassBetween([]int{loop.Body.Index}, map[int]bool{call.Block().Index: true})
-			if call.Block() == loop.Body {
-				labels = map[string]string{}
-			}
+			alts = append(alts, R.resolve(LF, e, pred, 0, map[*ssa.Phi]bool{p: true})...)
+		}
+		if len(alts) == 0 {
+			continue // not assigned in the loop
+		}
+		kinds := map[string]bool{}
+		for _, alt := range alts {
 			c.Evals++
-			var kind string
-			for l := range labels {
-				if !strings.HasPrefix(l, "T(call:slices.Contains("+stmt+".RegistryScopes,") {
-					continue
-				}
-				arg := strings.TrimSuffix(strings.TrimPrefix(l, "T(call:slices.Contains("+stmt+".RegistryScopes,"), "))")
-				if arg == fmt.Sprintf("const:%q", wc) {
-					kind = "wild"
-				} else if pathD != "" && arg == pathD {
-					kind = "exact"
-				}
-			}
-			// which header phi does the clone flow into?
-			var hp *ssa.Phi
-			for v := range fwdPhis(call) {
-				if p, ok := v.(*ssa.Phi); ok && p.Block() == loop.Header {
-					hp = p
-				}
-			}
-			switch kind {
-			case "exact":
-				nExact++
-				exactPhi = hp
-			case "wild":
-				nWild++
-				wildPhi = hp
+			kind := ""
+			switch {
+			case alt.Nil:
+				detail = "a candidate is reset to nil inside the loop"
+			case alt.Other != "":
+				detail = "the value assigned to a candidate is not a statement of the document: " + trunc(alt.Other, 200)
+			case scan.lift(alt.Doc) != wantDoc:
+				detail = "the candidate is an element of " + scan.lift(alt.Doc) + ", not of the document's statements"
 			default:
-				okGuards = false
-				detail = "the candidate assigned at " + w.InstrPos(call) + " is not guarded by membership of the repository path or of '*' in that statement's own registryScopes; guards: " + summarizeLabels(labels, 6)
+				nT := 0
+				for l := range alt.Facts {
+					pre := "T(call:slices.Contains(" + c08STMT + ".RegistryScopes,"
+					if !strings.HasPrefix(l, pre) || !strings.HasSuffix(l, "))") {
+						continue
+					}
+					nT++
+					arg := scan.lift(strings.TrimSuffix(strings.TrimPrefix(l, pre), "))"))
+					switch {
+					case arg == fmt.Sprintf("const:%q", wc):
+						kind = "wild"
+					case !strings.HasPrefix(arg, "const:") && strings.Contains(arg, ref):
+						kind = "exact"
+						exactArg = arg
+					}
+				}
+				if nT != 1 {
+					kind = ""
+				}
+				if kind == "" {
+					detail = "the candidate assigned at " + alt.Site + " is not guarded by membership of the repository path or of '*' in that statement's own registryScopes; guards: " + summarizeLabels(alt.Facts, 6)
+				}
+			}
+			kinds[kind] = true
+		}
+		switch {
+		case len(kinds) == 1 && kinds["exact"]:
+			nExact++
+			exactPhi = p
+		case len(kinds) == 1 && kinds["wild"]:
+			nWild++
+			wildPhi = p
+		default:
+			okGuards = false
+			if detail == "" {
+				detail = "one candidate is assigned under different memberships"
 			}
 		}
 	}
 	c.Check(okGuards && nExact == 1 && nWild == 1 && exactPhi != nil && wildPhi != nil && exactPhi != wildPhi, "oci/selection-predicate",
 		"a statement becomes the exact candidate only under slices.Contains(statement.RegistryScopes, repository path) and the wildcard candidate only under slices.Contains(statement.RegistryScopes, \"*\") (generic ==: no prefix, substring, case folding)", w.InstrPos(blockTerm(loop.Header)),
 		fmt.Sprintf("exact=%d wildcard=%d %s", nExact, nWild, detail))
-	// the wildcard test must not shadow the exact test: the exact candidate must be assignable when the statement lists the path,
-	// whatever the wildcard membership says about that statement is fine (valid documents keep '*' alone).
-	// (b) precedence by abstract interpretation
-	if exactPhi != nil && wildPhi != nil {
-		ip := &Interp{Fn: SEL, IntTypes: map[string]bool{}}
-		okP := true
-		var bad []string
-		for _, ex := range []int{aNil, aNonNil} {
-			for _, wi := range []int{aNil, aNonNil} {
-				env := map[ssa.Value]AVal{exactPhi: {Kind: ex}, wildPhi: {Kind: wi}}
-				ip.Hook = func(in ssa.Instruction, e map[ssa.Value]AVal) (AVal, bool) {
-					if in == ssa.Instruction(exactPhi) {
-						return AVal{Kind: ex}, true
-					}
-					if in == ssa.Instruction(wildPhi) {
-						return AVal{Kind: wi}, true
-					}
-					return AVal{}, false
-				}
-				outs := ip.Run(loop.Exit, loop.Header, env, nil, nil)
-				for _, o := range outs {
-					if o.Ret == nil || len(o.Ret.Results) != 2 {
-						continue
-					}
-					r0, r1 := o.Ret.Results[0], o.Ret.Results[1]
-					errNonNil := fi.nonNil(r1, o.Ret.Block())
-					var want string
-					switch {
-					case ex == aNonNil:
-						want = "exact"
-					case wi == aNonNil:
-						want = "wildcard"
-					default:
-						want = "error"
-					}
-					got := "other:" + desc(r0)
-					switch {
-					case errNonNil && isNilConst(r0):
-						got = "error"
-					case r0 == ssa.Value(exactPhi) && isNilConst(r1):
-						got = "exact"
-					case r0 == ssa.Value(wildPhi) && isNilConst(r1):
-						got = "wildcard"
-					}
-					if got != want {
-						okP = false
-						bad = append(bad, fmt.Sprintf("exact %s, wildcard %s: returns %s, specified %s", AVal{Kind: ex}, AVal{Kind: wi}, got, want))
-					}
-				}
-				if len(outs) == 0 {
-					okP = false
-					bad = append(bad, "no path")
-				}
+	// the value tested for exact membership is the repository path
+	if exactArg != "" {
+		okVal := false
+		for _, f := range forms {
+			if exactArg == f.Path {
+				okVal = true
 			}
 		}
-		c.Evals += ip.Steps
-		c.Check(okP, "oci/precedence", "finite decision table (abstract interpretation over candidate nil-ness): exact match, else wildcard, else a non-nil error with a nil statement", w.InstrPos(blockTerm(loop.Exit)), strings.Join(uniq(bad), "; "))
+		c.Check(okVal, "oci/path/value", "the repository path (the value whose membership makes a statement the exact candidate) is the text before the last '@' of the reference", w.InstrPos(blockTerm(loop.Header)), "the value tested is "+trunc(exactArg, 300))
+	} else {
+		c.Unk("oci/path/value", "the repository path (the value whose membership makes a statement the exact candidate) is the text before the last '@' of the reference", w.FnPos(SEL), "no exact-membership test found")
 	}
-	// repository path function
-	if pathD != "" {
-		var PF *ssa.Function
-		if pathCall != nil {
-			PF = staticCallee(pathCall)
-		}
+	// No success exit of the method bypasses the selection: every statement a success exit can hand out (followed
+	// through the candidates, the deferred clone, the scan helper) is an element of the document's statements that
+	// was remembered under membership of the repository path or of '*' in its own registryScopes; nil only where the
+	// exit knows it is not nil.
+	{
 		s := w.Summarize(SEL, Mode{Kind: mErr})
-		c.Evals += s.States
-		c.requireOnExits("oci/path", SEL, s.Exits, []Need{
-			{Name: "separator-found", What: "strings.LastIndex(reference, \"@\") >= 0", Subs: []string{"GE(call:strings.LastIndex(" + ref + `,const:"@"),const:0)`}},
-			{Name: "path-error", What: "repository path extraction err == nil", Subs: []string{"EQ(" + desc(pathCall) + "#err,nil)"}},
-			{Name: "format-validated", What: "the extracted path passes the scope format validator", Subs: []string{"EQ(call:ngo/verifier/trustpolicy.", "(" + ref + "[:call:strings.LastIndex(" + ref + `,const:"@")])#err,nil)`}},
-		})
-		if PF != nil {
-			okRet := true
-			for _, b := range PF.Blocks {
-				if r, isRet := blockTerm(b).(*ssa.Return); isRet {
-					if cl, _, _, _ := w.Info(PF).classify(r, state{b.Index, 0, -1}, Mode{Kind: mErr}); cl != clFail {
-						p := "param:" + PF.Params[0].Name()
-						if desc(r.Results[0]) != p+"[:call:strings.LastIndex("+p+`,const:"@")]` {
-							okRet = false
+		fiS := w.Info(SEL)
+		okOnly := len(s.Exits) > 0
+		why := ""
+		R2 := newC08Resolver(w)
+		want := []string{"T(call:slices.Contains(" + c08STMT + ".RegistryScopes," + fmt.Sprintf("const:%q", wc) + "))"}
+		for _, f := range forms {
+			want = append(want, "T(call:slices.Contains("+c08STMT+".RegistryScopes,"+f.Path+"))")
+		}
+		for _, ex := range s.Exits {
+			v := ex.Ret.Results[0]
+			nn := c08NonNilAt(fiS, v, ex.Ret.Block())
+			n := 0
+			for _, alt := range R2.resolve(SEL, v, ex.Ret.Block(), 0, map[*ssa.Phi]bool{}) {
+				c.Evals++
+				switch {
+				case alt.Nil:
+					if !nn {
+						okOnly, why = false, "the exit at "+w.InstrPos(ex.Ret)+" can succeed with a nil statement"
+					}
+				case alt.Other != "":
+					okOnly, why = false, "the exit at "+w.InstrPos(ex.Ret)+" returns "+trunc(alt.Other, 200)
+				default:
+					n++
+					has := false
+					for _, f := range want {
+						if _, ok := alt.Facts[f]; ok {
+							has = true
 						}
 					}
+					if alt.Doc != wantDoc {
+						okOnly, why = false, "the statement returned at "+w.InstrPos(ex.Ret)+" is an element of "+alt.Doc+", not of the document's statements"
+					} else if !has {
+						okOnly, why = false, "the statement returned at "+w.InstrPos(ex.Ret)+" (taken at "+alt.Site+") was not selected by membership; facts: "+summarizeLabels(alt.Facts, 6)
+					}
 				}
 			}
-			c.Check(okRet, "oci/path/value", "the repository path is the text before the last '@' of the reference", w.FnPos(PF), "another slice of the reference is returned")
+			if n == 0 && okOnly {
+				okOnly, why = false, "the exit at "+w.InstrPos(ex.Ret)+" hands out no statement of the document"
+			}
 		}
+		c.Check(okOnly, "oci/selected-only", "no success exit bypasses the selection: every statement the method can hand out is a statement of the document whose own registryScopes contain the repository path or '*'", w.FnPos(SEL), why)
+	}
+	// (b) precedence by abstract interpretation
+	if exactPhi != nil && wildPhi != nil {
+		c08Precedence(c, SEL, scan, exactPhi, wildPhi)
+	} else {
+		c.Unk("oci/precedence", "finite decision table (abstract interpretation over candidate nil-ness): exact match, else wildcard, else a non-nil error with a nil statement", w.InstrPos(blockTerm(loop.Exit)), "the exact and the wildcard candidate were not identified")
+	}
+}
+
+// c08Precedence: finite decision table over the nil-ness of the two candidates when the loop is left. The scanning
+// function is interpreted from the loop exit; a returned candidate — or the clone of it (copy deferred to the exit) —
+// counts as that candidate when it is non-nil and as "nothing" when it is nil. When the scan lives in a helper without
+// error result, the selection method is interpreted from the helper call with the call's value nil / non-nil
+// accordingly: it must hand on a non-nil statement with a nil error and turn nil into a non-nil error.
+func c08Precedence(c *Ctx, SEL *ssa.Function, scan *c08Scan, exactPhi, wildPhi *ssa.Phi) {
+	w := c.W
+	LF, loop := scan.Fn, &scan.Loop
+	rule := "finite decision table (abstract interpretation over candidate nil-ness): exact match, else wildcard, else a non-nil error with a nil statement"
+	site := w.InstrPos(blockTerm(loop.Exit))
+	if len(scan.Chain) > 1 || (len(scan.Chain) == 1 && LF.Signature.Results().Len() != 1) {
+		c.Unk("oci/precedence", rule, site, "the scan is nested in helpers in a way the rule does not follow")
+		return
+	}
+	stripClone := func(v ssa.Value) ssa.Value {
+		if call, ok := v.(*ssa.Call); ok {
+			if g := staticCallee(call); g != nil && isCloneMethod(g) {
+				v = call.Call.Args[0]
+				if u, ok := v.(*ssa.UnOp); ok && u.Op == token.MUL {
+					v = u.X
+				}
+			}
+		}
+		return v
+	}
+	// outcome of one return of fn: which = what a non-nil / nil abstract value of the tracked values stands for
+	outcome := func(fn *ssa.Function, ret *ssa.Return, which map[ssa.Value]string) string {
+		r0 := stripClone(ret.Results[0])
+		got := "other:" + desc(ret.Results[0])
+		if k, ok := which[r0]; ok {
+			got = k
+		} else if isNilConst(r0) {
+			got = "none"
+		}
+		if len(ret.Results) == 2 {
+			r1 := ret.Results[1]
+			switch {
+			case isNilConst(r1):
+				if got == "none" {
+					got = "other:nil statement without error"
+				}
+			case w.Info(fn).nonNil(r1, ret.Block()):
+				if got == "none" {
+					got = "error"
+				} else {
+					got = "other:statement together with an error"
+				}
+			default:
+				got = "other:undetermined error " + desc(r1)
+			}
+		}
+		return got
+	}
+	okP := true
+	var bad []string
+	steps := 0
+	for _, ex := range []int{aNil, aNonNil} {
+		for _, wi := range []int{aNil, aNonNil} {
+			var want string
+			switch {
+			case ex == aNonNil:
+				want = "exact"
+			case wi == aNonNil:
+				want = "wildcard"
+			default:
+				want = "error"
+			}
+			ip := &Interp{Fn: LF, IntTypes: map[string]bool{}}
+			env := map[ssa.Value]AVal{exactPhi: {Kind: ex}, wildPhi: {Kind: wi}}
+			ip.Hook = func(in ssa.Instruction, e map[ssa.Value]AVal) (AVal, bool) {
+				if in == ssa.Instruction(exactPhi) {
+					return AVal{Kind: ex}, true
+				}
+				if in == ssa.Instruction(wildPhi) {
+					return AVal{Kind: wi}, true
+				}
+				return AVal{}, false
+			}
+			which := map[ssa.Value]string{exactPhi: "none", wildPhi: "none"}
+			if ex == aNonNil {
+				which[exactPhi] = "exact"
+			}
+			if wi == aNonNil {
+				which[wildPhi] = "wildcard"
+			}
+			outs := ip.Run(loop.Exit, loop.Header, env, nil, nil)
+			steps += ip.Steps
+			var gots []string
+			for _, o := range outs {
+				if o.Ret == nil || len(o.Ret.Results) == 0 {
+					gots = append(gots, "other:no return")
+					continue
+				}
+				got := outcome(LF, o.Ret, which)
+				if len(scan.Chain) == 1 && (got == "exact" || got == "wildcard" || got == "none") {
+					// the selection method, from the helper call on
+					call := scan.Chain[0]
+					abs := aNonNil
+					if got == "none" {
+						abs = aNil
+					}
+					ip2 := &Interp{Fn: SEL, IntTypes: map[string]bool{}}
+					ip2.Hook = func(in ssa.Instruction, e map[ssa.Value]AVal) (AVal, bool) {
+						if in == ssa.Instruction(call) {
+							return AVal{Kind: abs}, true
+						}
+						return AVal{}, false
+					}
+					outs2 := ip2.Run(call.Block(), nil, map[ssa.Value]AVal{call: {Kind: abs}}, nil, nil)
+					steps += ip2.Steps
+					if len(outs2) == 0 {
+						gots = append(gots, "other:no path")
+					}
+					for _, o2 := range outs2 {
+						if o2.Ret == nil || len(o2.Ret.Results) != 2 {
+							gots = append(gots, "other:no return")
+							continue
+						}
+						gots = append(gots, outcome(SEL, o2.Ret, map[ssa.Value]string{call: got}))
+					}
+					continue
+				}
+				gots = append(gots, got)
+			}
+			if len(gots) == 0 {
+				okP = false
+				bad = append(bad, "no path")
+			}
+			for _, got := range gots {
+				if got != want {
+					okP = false
+					bad = append(bad, fmt.Sprintf("exact %s, wildcard %s: returns %s, specified %s", AVal{Kind: ex}, AVal{Kind: wi}, got, want))
+				}
+			}
+		}
+	}
+	c.Evals += steps
+	c.Check(okP, "oci/precedence", rule, site, strings.Join(uniq(bad), "; "))
+}
+
+// c08Path: the selection method succeeds only for a reference that has a '@' and whose text before the last '@' passes
+// the scope format validator. The facts are required on the method's success exits (the engine composes them through
+// an extraction helper, so the helper may be inlined or kept); when a helper (string) -> (string, error) extracts the
+// path, its error must be nil as well.
+func c08Path(c *Ctx, SEL *ssa.Function, ref string, forms []c08PathForm) {
+	w := c.W
+	var pathCall *ssa.Call
+	for _, ci := range allCalls(SEL) {
+		if call, ok := ci.(*ssa.Call); ok {
+			if g := staticCallee(call); g != nil && w.IsProductFn(g) && len(call.Call.Args) == 1 && desc(call.Call.Args[0]) == ref && g.Signature.Results().Len() == 2 && g.Signature.Results().At(0).Type().String() == "string" && isErrorType(g.Signature.Results().At(1).Type()) {
+				pathCall = call
+			}
+		}
+	}
+	var sepAlt, fmtAlt [][]string
+	for _, f := range forms {
+		sepAlt = append(sepAlt, []string{"GE(" + f.Idx + ",const:0)"}, []string{"GT(" + f.Idx + ",const:-1)"}, []string{"NE(" + f.Idx + ",const:-1)"})
+		fmtAlt = append(fmtAlt, []string{"EQ(call:ngo/verifier/trustpolicy.", "(" + f.Path + ")#err,nil)"})
+	}
+	s := w.Summarize(SEL, Mode{Kind: mErr})
+	c.Evals += s.States
+	needs := []Need{
+		{Name: "separator-found", What: "strings.LastIndex(reference, \"@\") >= 0", Alt: sepAlt},
+		{Name: "format-validated", What: "the extracted path passes the scope format validator", Alt: fmtAlt},
+	}
+	if pathCall != nil {
+		needs = append(needs, Need{Name: "path-error", What: "repository path extraction err == nil", Subs: []string{"EQ(" + desc(pathCall) + "#err,nil)"}})
+	}
+	c.requireOnExits("oci/path", SEL, s.Exits, needs)
+	if pathCall == nil {
+		c.OK("oci/path/path-error", "must-check: repository path extraction err == nil (no extraction helper with an error result in "+fnName(SEL)+": the separator and format checks are required on the method itself)", w.FnPos(SEL))
 	}
 }
 
@@ -576,47 +799,106 @@ func c08Blob(c *Ctx) {
 		n++
 		c.SeenFn(fn.String())
 		c08ReturnsClones(c, fn)
+		fi := w.Info(fn)
 		s := w.Summarize(fn, Mode{Kind: mErr})
 		c.Evals += s.States
-		if fn.Signature.Params().Len() == 1 {
-			pn := "param:" + fn.Params[1].Name()
-			ok := len(s.Exits) > 0
-			for _, ex := range s.Exits {
-				_, h1 := hasLabel(ex.Checked, "EQ(alloc:ngo/verifier/trustpolicy.BlobTrustPolicy<", ">.Name,"+pn+")")
-				_, h2 := hasLabel(ex.Checked, "EQ("+pn+",alloc:ngo/verifier/trustpolicy.BlobTrustPolicy<", ">.Name)")
-				if !h1 && !h2 {
-					ok = false
-				}
-				// the statement cloned is the one compared
-				if call := callOf(ex.Ret.Results[0]); call != nil {
-					st := desc(call.Call.Args[0])
-					if !labelHas(ex.Checked, "EQ("+st+".Name,"+pn+")") && !labelHas(ex.Checked, "EQ("+pn+","+st+".Name)") {
-						ok = false
+		// Every success exit hands out a statement; the value is resolved to the statement(s) it can be the clone of
+		// (through helpers, predicate closures, slices.IndexFunc). Each must be an element of the receiver's
+		// statements and carry the selecting fact — about that very statement, in the iteration / at the index it was
+		// taken from — when it is cloned: Name == requested name (string ==), resp. its own GlobalPolicy flag.
+		wantDoc := "param:" + fn.Params[0].Name() + ".TrustPolicies"
+		byName := fn.Signature.Params().Len() == 1
+		var wantFacts []string
+		if byName {
+			for _, pn := range c08ParamForms(fn, fn.Params[1]) {
+				wantFacts = append(wantFacts, "EQ("+c08STMT+".Name,"+pn+")", "EQ("+pn+","+c08STMT+".Name)")
+			}
+		} else {
+			wantFacts = []string{"T(" + c08STMT + ".GlobalPolicy)"}
+		}
+		R := newC08Resolver(w)
+		R.frames[fn] = true
+		okSel, okFound := len(s.Exits) > 0, len(s.Exits) > 0
+		whySel, whyFound := "", ""
+		if len(s.Exits) == 0 {
+			whySel, whyFound = "no success exit", "no success exit"
+		}
+		for _, ex := range s.Exits {
+			v := ex.Ret.Results[0]
+			nn := c08NonNilAt(fi, v, ex.Ret.Block())
+			nStmt := 0
+			for _, alt := range R.resolve(fn, v, ex.Ret.Block(), 0, map[*ssa.Phi]bool{}) {
+				c.Evals++
+				switch {
+				case alt.Nil:
+					if !nn {
+						okFound = false
+						whyFound = "the exit at " + w.InstrPos(ex.Ret) + " can succeed with a nil statement"
+					}
+				case alt.Other != "":
+					okSel, okFound = false, false
+					whySel = "the exit at " + w.InstrPos(ex.Ret) + " returns " + trunc(alt.Other, 200)
+					whyFound = whySel
+				default:
+					nStmt++
+					has := false
+					for _, f := range wantFacts {
+						if _, ok := alt.Facts[f]; ok {
+							has = true
+						}
+					}
+					switch {
+					case alt.Doc != wantDoc:
+						okSel = false
+						whySel = "the statement returned at " + w.InstrPos(ex.Ret) + " is an element of " + alt.Doc + ", not of the document's statements"
+					case len(alt.Dyn) > 0:
+						okSel = false
+						whySel = "selected by a predicate that is not resolved"
+					case !has:
+						okSel = false
+						whySel = "the statement returned at " + w.InstrPos(ex.Ret) + " is cloned without that fact; facts: " + summarizeLabels(alt.Facts, 6)
 					}
 				}
 			}
-			c.Check(ok, "blob/by-name", "blob selection by name: a statement is returned only under statement.Name == requested name (string equality), and it is that statement", w.FnPos(fn), "a statement can be returned without exact name equality")
-		} else {
-			ok := len(s.Exits) > 0
-			for _, ex := range s.Exits {
-				call := callOf(ex.Ret.Results[0])
-				if call == nil {
-					ok = false
-					continue
+			if nStmt == 0 {
+				okSel, okFound = false, false
+				if whySel == "" {
+					whySel = "the exit at " + w.InstrPos(ex.Ret) + " hands out no statement of the document"
 				}
-				st := desc(call.Call.Args[0])
-				if !labelHas(ex.Checked, "T("+st+".GlobalPolicy)") {
-					ok = false
+				if whyFound == "" {
+					whyFound = whySel
 				}
 			}
-			c.Check(ok, "blob/global", "global selection: a statement is returned only if its own globalPolicy flag is set", w.FnPos(fn), "a statement can be returned without the global flag")
 		}
-		// not found => error: the function's exits after the loop are failing (no success exit outside the loop body)
-		for _, sl := range sliceLoops(fn) {
-			fi := w.Info(fn)
-			wit := fi.successWitness(Mode{Kind: mErr}, []state{{sl.Exit.Index, 0, -1}}, nil)
-			c.Check(wit == nil, "blob/not-found/"+fnName(fn), "when no statement matches the selection fails", w.InstrPos(blockTerm(sl.Header)), "success after an unsuccessful search", wit...)
+		if byName {
+			c.Check(okSel, "blob/by-name", "blob selection by name: a statement is returned only under statement.Name == requested name (string equality), and it is that statement", w.FnPos(fn), "a statement can be returned without exact name equality: "+whySel)
+		} else {
+			c.Check(okSel, "blob/global", "global selection: a statement is returned only if its own globalPolicy flag is set", w.FnPos(fn), "a statement can be returned without the global flag: "+whySel)
 		}
+		// not found => error: no success exit hands out nil or anything but a selected statement (above), and where
+		// the search is a loop (in the method or in the helper it delegates to), nothing succeeds / no statement is
+		// handed out once the loop has run out of statements.
+		var wit []string
+		site := w.FnPos(fn)
+		for _, g := range w.Funcs {
+			if !R.frames[g] {
+				continue
+			}
+			for _, sl := range sliceLoops(g) {
+				if g != fn && !strings.HasSuffix(desc(sl.X), ".TrustPolicies") {
+					continue
+				}
+				if g == fn {
+					site = w.InstrPos(blockTerm(sl.Header))
+				}
+				if ok, wt := c08AfterSearchFails(w, g, sl); !ok {
+					okFound = false
+					whyFound = "success after an unsuccessful search in " + fnName(g)
+					wit = wt
+				}
+			}
+		}
+		c.Check(okFound, "blob/not-found/"+fnName(fn), "when no statement matches the selection fails", site, whyFound, wit...)
 	}
 	if n < 2 {
 		c.Unk("blob#count", "vacuity guard: two blob selection methods", "-", fmt.Sprintf("%d found", n))
